@@ -1165,7 +1165,19 @@ Stylesheet::findTemplate(
 
     if(m_isWrapperless == true)
     {
-        return m_firstTemplate;
+        // A simplified stylesheet is equivalent to a stylesheet with a
+        // single template rule that matches "/" in the default mode.
+        if (onlyUseImports == false &&
+            mode.isEmpty() == true &&
+            (targetNodeType == XalanNode::DOCUMENT_NODE ||
+             targetNodeType == XalanNode::DOCUMENT_FRAGMENT_NODE))
+        {
+            return m_firstTemplate;
+        }
+        else
+        {
+            return 0;
+        }
     }
     else if (onlyUseImports == true)
     {
